@@ -11,7 +11,7 @@ import ast
 from typing import Callable, Dict, List, Tuple
 
 from .loader import Program
-from .rules import generic, generic2, valueobj
+from .rules import generic, generic2, generic3, valueobj
 
 # (rule, module, class-or-None, source to inject, rule runner, substring expected in a BAD construct id)
 CONTROLS: List[Tuple[str, str, str, str, Callable[[Program], list], str]] = [
@@ -72,6 +72,18 @@ CONTROLS: List[Tuple[str, str, str, str, Callable[[Program], list], str]] = [
     ("R-IMPORTTIME", "cog._rio", "",
      "_VP_CTL_DIR = str(uuid4())\n",
      lambda p: generic2.rule_importtime(p, {"cog._rio"}), "cog._rio#importtime"),
+    ("R-INFALSE", "cog._rio", "",
+     "def _vp_ctl_infalse(v):\n    return v not in (None, False)\n",
+     lambda p: generic3.rule_infalse(p, {"cog._rio"}), "_vp_ctl_infalse#in-false"),
+    ("R-ACQUIRE", "cog._s3", "",
+     "def _vp_ctl_acq(lock):\n    ok = lock.acquire(timeout=5)\n    try:\n        return 1\n    finally:\n        if ok:\n            lock.release()\n",
+     lambda p: generic3.rule_acquire(p, {"cog._s3"}), "_vp_ctl_acq#acquire"),
+    ("R-TWOCORNER", "geobox", "GeoBox",
+     "def _vp_ctl_two(self, bbox):\n    return BoundingBox.from_points(self.wld2pix(bbox.left, bbox.bottom), self.wld2pix(bbox.right, bbox.top))\n",
+     lambda p: generic3.rule_twocorner(p, {"geobox"}), "_vp_ctl_two#two-corners"),
+    ("R-SIGNMAG", "geobox", "GeoBox",
+     "def _vp_ctl_sm(self):\n    rx, ry = self.resolution.xy\n    return max(rx * 2, -ry * 3)\n",
+     lambda p: generic3.rule_signmag_locals(p, {"geobox"}), "_vp_ctl_sm#res-magnitude-local"),
     ("R-ABSEPS", "geobox", "GeoBox",
      "def _vp_ctl_abseps(self):\n    return self._affine.is_rectilinear\n",
      lambda p: generic.rule_abseps(p, {"geobox"}), "_vp_ctl_abseps#abs-eps"),
